@@ -11,6 +11,7 @@ import (
 	"crypto/sha256"
 	"encoding/hex"
 	"fmt"
+	"sort"
 	"strings"
 )
 
@@ -133,10 +134,12 @@ func (in *Interp) hashAxioms(t *Term) []string {
 // ---- models of digests for replay ----
 
 func (in *Interp) extraDigestTerms(_ *Term) {}
-
 // defineAllForModel sends every digest input and hash application of this
 // path to the solver so that a model assigns them values.
 func (in *Interp) defineAllForModel() {
+	if len(in.digestInputs) == 0 {
+		return
+	}
 	for _, d := range in.digestInputs {
 		in.sol.define(d.T[0])
 		for _, b := range in.digestBytes(d.T[0]) {
@@ -150,23 +153,28 @@ func (in *Interp) defineAllForModel() {
 		}
 	}
 	// distinct free digests must differ in some byte (model quality only)
-	for i := 0; i < len(in.digestInputs); i++ {
-		for j := i + 1; j < len(in.digestInputs); j++ {
-			x, y := in.digestInputs[i].T[0], in.digestInputs[j].T[0]
-			var sb strings.Builder
-			fmt.Fprintf(&sb, "(assert (=> (not (= %s %s)) (or", x.ref(), y.ref())
-			for k := 0; k < in.hashLen; k++ {
-				fmt.Fprintf(&sb, " (not (= (%s %s) (%s %s)))", dbName(k), x.ref(), dbName(k), y.ref())
+	if len(in.digestInputs) <= 24 {
+		for i := 0; i < len(in.digestInputs); i++ {
+			for j := i + 1; j < len(in.digestInputs); j++ {
+				x, y := in.digestInputs[i].T[0], in.digestInputs[j].T[0]
+				var sb strings.Builder
+				fmt.Fprintf(&sb, "(assert (=> (not (= %s %s)) (or", x.ref(), y.ref())
+				for k := 0; k < in.hashLen; k++ {
+					fmt.Fprintf(&sb, " (not (= (%s %s) (%s %s)))", dbName(k), x.ref(), dbName(k), y.ref())
+				}
+				sb.WriteString(")))")
+				in.sol.send(sb.String())
 			}
-			sb.WriteString(")))")
-			in.sol.send(sb.String())
 		}
 	}
 }
 
 // digestModel describes, after a sat check with everything defined, every
-// free digest input either as a fresh value (with its model bytes) or as the
-// value of a hash expression, so that the native replay can rebuild it.
+// free digest input either as a free value (with its model bytes, "x:<hex>")
+// or as a reference "@h<ID>" to a hash application whose definition
+// "H(arg,…)" is emitted as an extra input of kind "hdef" (arguments are
+// references, free values or plain bytes "p:<hex>"), so that the native replay
+// can rebuild the same values with SHA-256.
 func (in *Interp) digestModel() []InputValue {
 	if len(in.digestInputs) == 0 {
 		return nil
@@ -176,78 +184,86 @@ func (in *Interp) digestModel() []InputValue {
 	for _, h := range info {
 		hts = append(hts, h.t)
 	}
+	sort.Slice(hts, func(i, j int) bool { return hts[i].ID < hts[j].ID })
 	hvals := in.sol.GetValues(hts)
 	byVal := map[string]*hashApp{}
 	for i, t := range hts {
-		v := hvals[i]
-		if old, ok := byVal[v]; !ok || t.ID < old.t.ID {
-			byVal[v] = info[t.ID]
-		}
-	}
-	freeByVal := map[string]string{}
-	var exprOf func(t *Term, depth int) string
-	exprOf = func(t *Term, depth int) string {
-		if depth > 64 {
-			return "fresh:deep"
-		}
-		switch {
-		case t.S.K == SD:
-			v := in.sol.GetValues([]*Term{t})[0]
-			if h, ok := byVal[v]; ok {
-				var parts []string
-				for _, c := range h.chunks {
-					parts = append(parts, exprOf(c, depth+1))
-				}
-				return "H(" + strings.Join(parts, ",") + ")"
-			}
-			// free value: use model bytes
-			if name, ok := freeByVal[v]; ok {
-				return name
-			}
-			var sb strings.Builder
-			sb.WriteString("x:")
-			for _, b := range in.sol.GetValues(in.digestBytes(t)) {
-				u, _ := parseBVValue(b)
-				fmt.Fprintf(&sb, "%02x", u)
-			}
-			freeByVal[v] = sb.String()
-			return sb.String()
-		default:
-			v := in.sol.GetValues([]*Term{t})[0]
-			if strings.HasPrefix(v, "#x") {
-				return "p:" + v[2:]
-			}
-			if strings.HasPrefix(v, "#b") {
-				// width multiple of 8 is guaranteed for byte chunks; convert
-				bits := v[2:]
-				var sb strings.Builder
-				sb.WriteString("p:")
-				for i := 0; i+8 <= len(bits); i += 8 {
-					var u uint64
-					for _, c := range bits[i : i+8] {
-						u = u<<1 | uint64(c-'0')
-					}
-					fmt.Fprintf(&sb, "%02x", u)
-				}
-				return sb.String()
-			}
-			return "p?" + v
+		if _, ok := byVal[hvals[i]]; !ok {
+			byVal[hvals[i]] = info[t.ID]
 		}
 	}
 	var out []InputValue
+	defined := map[int]string{}
+	freeByVal := map[string]string{}
+	var refOf func(t *Term, depth int) string
+	refOf = func(t *Term, depth int) string {
+		if t.S.K != SD {
+			v := in.sol.GetValues([]*Term{t})[0]
+			return "p:" + bvHex(v)
+		}
+		v := in.sol.GetValues([]*Term{t})[0]
+		if h, ok := byVal[v]; ok && depth < 2000 {
+			if r, done := defined[h.t.ID]; done {
+				return r
+			}
+			name := fmt.Sprintf("h%d", h.t.ID)
+			defined[h.t.ID] = "@" + name
+			var parts []string
+			for _, c := range h.chunks {
+				parts = append(parts, refOf(c, depth+1))
+			}
+			out = append(out, InputValue{Name: name, Kind: "hdef", Value: "H(" + strings.Join(parts, ",") + ")"})
+			return "@" + name
+		}
+		if r, ok := freeByVal[v]; ok {
+			return r
+		}
+		var sb strings.Builder
+		sb.WriteString("x:")
+		for _, b := range in.sol.GetValues(in.digestBytes(t)) {
+			u, _ := parseBVValue(b)
+			fmt.Fprintf(&sb, "%02x", u)
+		}
+		freeByVal[v] = sb.String()
+		return sb.String()
+	}
 	for _, d := range in.digestInputs {
-		out = append(out, InputValue{Name: d.Name, Kind: "digest", Value: exprOf(d.T[0], 0)})
+		out = append(out, InputValue{Name: d.Name, Kind: "digest", Value: refOf(d.T[0], 0)})
 	}
 	return out
 }
 
-// evalDigestExpr evaluates "H(e1,e2,…)", "x:<hex>", "p:<hex>" exactly like the native rt package.
-func evalDigestExpr(e string, L int) []byte {
-	b, _ := parseDigestExpr(e, L)
+func bvHex(v string) string {
+	if strings.HasPrefix(v, "#x") {
+		return v[2:]
+	}
+	if strings.HasPrefix(v, "#b") {
+		bits := v[2:]
+		var sb strings.Builder
+		for i := 0; i+8 <= len(bits); i += 8 {
+			var u uint64
+			for _, c := range bits[i : i+8] {
+				u = u<<1 | uint64(c-'0')
+			}
+			fmt.Fprintf(&sb, "%02x", u)
+		}
+		return sb.String()
+	}
+	return "??" + v
+}
+
+// evalDigestExpr evaluates "@name", "H(e1,e2,…)", "x:<hex>", "p:<hex>" exactly
+// like the native rt package. lookup resolves references to other inputs.
+func evalDigestExprL(e string, L int, lookup func(string) (string, bool), memo map[string][]byte) []byte {
+	b, _ := parseDigestExpr(e, L, lookup, memo)
 	return b
 }
 
-func parseDigestExpr(e string, L int) ([]byte, string) {
+func evalDigestExpr(e string, L int) []byte {
+	return evalDigestExprL(e, L, func(string) (string, bool) { return "", false }, map[string][]byte{})
+}
+
+func parseDigestExpr(e string, L int, lookup func(string) (string, bool), memo map[string][]byte) ([]byte, string) {
 	hashParts := func(parts [][]byte) []byte {
 		h := sha256.New()
 		for _, p := range parts {
@@ -255,7 +271,30 @@ func parseDigestExpr(e string, L int) ([]byte, string) {
 		}
 		return h.Sum(nil)[:L]
 	}
+	end := func(s string) int {
+		i := 0
+		for i < len(s) && s[i] != ',' && s[i] != ')' {
+			i++
+		}
+		return i
+	}
 	switch {
+	case strings.HasPrefix(e, "@"):
+		i := end(e)
+		name := e[1:i]
+		if b, ok := memo[name]; ok {
+			return b, e[i:]
+		}
+		def, ok := lookup(name)
+		var b []byte
+		if ok {
+			b, _ = parseDigestExpr(def, L, lookup, memo)
+		} else {
+			s := sha256.Sum256([]byte("fresh:" + name))
+			b = s[:L]
+		}
+		memo[name] = b
+		return b, e[i:]
 	case strings.HasPrefix(e, "H("):
 		rest := e[2:]
 		var parts [][]byte
@@ -265,7 +304,7 @@ func parseDigestExpr(e string, L int) ([]byte, string) {
 				break
 			}
 			var p []byte
-			p, rest = parseDigestExpr(rest, L)
+			p, rest = parseDigestExpr(rest, L, lookup, memo)
 			parts = append(parts, p)
 			if strings.HasPrefix(rest, ",") {
 				rest = rest[1:]
@@ -277,10 +316,7 @@ func parseDigestExpr(e string, L int) ([]byte, string) {
 		return hashParts(parts), rest
 	case strings.HasPrefix(e, "x:"), strings.HasPrefix(e, "p:"):
 		rest := e[2:]
-		i := 0
-		for i < len(rest) && rest[i] != ',' && rest[i] != ')' {
-			i++
-		}
+		i := end(rest)
 		b, _ := hex.DecodeString(rest[:i])
 		if e[0] == 'x' {
 			allZero := true
@@ -296,10 +332,7 @@ func parseDigestExpr(e string, L int) ([]byte, string) {
 		}
 		return b, rest[i:]
 	}
-	i := 0
-	for i < len(e) && e[i] != ',' && e[i] != ')' {
-		i++
-	}
+	i := end(e)
 	s := sha256.Sum256([]byte("fresh:" + e[:i]))
 	return s[:L], e[i:]
 }
